@@ -552,10 +552,12 @@ def hostile_options(rng):
     flag('--keep-plus-minus-markers', 0.2)
     flag('--relative-paths', 0.1)
     if rng.random() < 0.6:
-        o['--width'] = rng.choice([0, 1, 2, 3, 4, 5, 6, 7, 9, 11, 13, 20, 21, 40, 41, 79, 80, 81, 200, 501, 'variable', '-1', '-3'])
+        o['--width'] = rng.choice([0, 1, 2, 3, 4, 5, 6, 7, 9, 11, 13, 20, 21, 40, 41, 79, 80, 81, 200, 501, 'variable', '-1', '-3',
+                                   65535, 65536, 100000000000000, '-100000000000000'])
         cls.append('width')
     if rng.random() < 0.4:
-        o['--wrap-max-lines'] = rng.choice([0, 1, 2, 3, 10, 'unlimited', '∞'])
+        o['--wrap-max-lines'] = rng.choice([0, 1, 2, 3, 10, 'unlimited', '∞', 'inf', '18446744073709551615', '18446744073709551614', '9999999999999999999',
+                                            '4294967296'])
         cls.append('wrap-max')
     if rng.random() < 0.3:
         o['--tabs'] = rng.choice([0, 1, 2, 8, 50])
@@ -634,7 +636,8 @@ def hostile_options(rng):
                                                     '{n:^4_every--1}', '{n:0_block}', '{n:^100000}'])
         cls.append('blamefmt')
     if rng.random() < 0.08:
-        o['--blame-timestamp-output-format'] = rng.choice(['%Y-%m-%d', '%s', '%H:%M %z', ''])
+        o['--blame-timestamp-output-format'] = rng.choice(['%Y-%m-%d', '%s', '%H:%M %z', '', '%Q', '%', '%%%', '%Y %', '%-', '%:::z %#z', '%9999Y', '%é'])
+        cls.append('blamepal')      # (so that C03 pairs it with blame input)
     if rng.random() < 0.08:
         o['--blame-palette'] = rng.choice(['red', 'red blue', '#010101 #020202 #030303', '1 2 3 4 5 6'])
         cls.append('blamepal')
